@@ -1450,14 +1450,17 @@ def run(ctx):
               lambda k=k: oracle(ctx, D, nor // nsl, random.Random(ctx.seed * 7919 + 100 + k), tag=k))
     ctx.log("oracle done")
     ctx.cov["explanation"] = (
-        "Props/C01.v: conversions dense<->csr, transpose/adjoint/conj/neg/mul on csr and dense, "
-        "reorder, add_dense (+shape guard) preserve / compute the denotation for all shapes, "
-        "orders and sparsity patterns; entry_ok soundness makes every accepted lookup entry "
-        "compute its base's operation.  Tie: raw-structure equality of model and kernels "
-        "(vm_compute) and the real lookup tables fed to entry_ok.  All other operations "
-        "(matmul, kron, ptrace, reshape, permute, inner, expect, norms, predicates, tidyup, "
-        "pow, project) are covered by the differential oracle only (exact on Gaussian "
-        "integers; norms with a labelled 1e-12 validation tolerance), not by a theorem.")
+        "Props/C01.v: conversions dense<->csr, dense<->dia, dia->csr; transpose/adjoint/conj/"
+        "neg/mul on csr and dense; reorder; add_dense and add_csr (walk + scatter/gather "
+        "accumulator, unsorted rows) with shape guards; trace_csr/trace_dense; tidyup on dense "
+        "and csr; isdiag_csr and isequal_dia as iff with the denoted matrix - all for every "
+        "shape, memory order and sparsity pattern; entry_ok soundness makes every accepted "
+        "lookup entry compute its base's operation.  Tie: raw-structure equality of model and "
+        "kernels (vm_compute) and the real lookup tables fed to entry_ok.  All other "
+        "operations (matmul, kron, ptrace, reshape, permute, inner, expect, norms, the other "
+        "predicates, pow, project, add_dia/clean_dia, dia.from_csr) are covered by the "
+        "differential oracle only (exact on Gaussian integers; norms with a labelled 1e-12 "
+        "validation tolerance), not by a theorem.")
 
 
 def eval_stored_case(D, d):
